@@ -362,7 +362,7 @@ pub fn gen_schema(c: &mut Choices<'_>, cfg: &SchemaGenConfig) -> SchemaDoc {
                         .filter(|t| t.name != f.ty.base && t.implements.contains(&f.ty.base))
                         .map(|t| t.name.clone())
                         .collect();
-                    if !subs.is_empty() && c.chance(128) {
+                    if !subs.is_empty() && !types[idx].is_interface && c.chance(128) {
                         f.ty.base = c.pick(&subs).clone();
                     } else {
                         f.ty = narrow_nulls(c, &f.ty);
@@ -499,7 +499,7 @@ pub fn gen_schema(c: &mut Choices<'_>, cfg: &SchemaGenConfig) -> SchemaDoc {
                         .filter(|t| t.name != nf.ty.base && t.implements.contains(&nf.ty.base))
                         .map(|t| t.name.clone())
                         .collect();
-                    if !subs.is_empty() && c.chance(128) {
+                    if !subs.is_empty() && !types[idx].is_interface && c.chance(128) {
                         nf.ty.base = c.pick(&subs).clone();
                     } else {
                         nf.ty = narrow_nulls(c, &nf.ty);
@@ -565,13 +565,36 @@ pub fn gen_schema(c: &mut Choices<'_>, cfg: &SchemaGenConfig) -> SchemaDoc {
         }
     }
 
-    SchemaDoc {
+    let mut doc = SchemaDoc {
         root: root.clone(),
         types,
         extra_defs: vec![],
         include_directives: true,
         schema_blocks: vec![root],
         sem,
+    };
+    if !validate_schema(&doc).is_empty() {
+        // fall back to exact copies of the introducing type's definition for every inherited field
+        canonicalize_inherited(&mut doc);
+    }
+    doc
+}
+
+/// Replace every inherited field by an exact copy of its (unique) origin's definition.
+pub fn canonicalize_inherited(doc: &mut SchemaDoc) {
+    let snapshot = doc.clone();
+    for t in doc.types.iter_mut() {
+        for f in t.fields.iter_mut() {
+            let origins = snapshot.field_origins(&t.name, &f.name);
+            if let Some(o) = origins.iter().next() {
+                if o != &t.name {
+                    if let Some(of) = snapshot.field(o, &f.name) {
+                        f.ty = of.ty.clone();
+                        f.params = of.params.clone();
+                    }
+                }
+            }
+        }
     }
 }
 
